@@ -138,7 +138,7 @@ cdef inline bint validate_record(
     if not isinstance(datum, Mapping):
         return False
     _, fullname = schema_name(schema, parent_ns)
-    if "-type" in datum and datum["-type"] != fullname:
+    if "-type" in datum and datum["-type"] != schema["name"]:
         return False
 
     for f in schema["fields"]:
